@@ -11,6 +11,7 @@ import logging
 import math
 import os
 import pathlib
+import random
 import re
 import sys
 import time
@@ -210,7 +211,11 @@ class C04(Prop):
     cases = {"quick": 1500, "thorough": 40000}
     rule = ("synthetic directories in the Nu / iCap LDR / TOFWERK / generic layouts (1..8 line files, numbers 9/10/11/100, "
             "unequal lengths, 1..4 elements, distractor / hidden / directory entries, shuffled listing, shuffled task "
-            "completion, 5 time zones with stamps around DST transitions, explicit and auto-detected option) plus batches of "
+            "completion, 5 time zones with stamps around DST transitions, explicit and auto-detected option; 40% of the cases "
+            "with an explicit option object first import one or two primer directories of the same layout - other line "
+            "count / element set / helper columns, element or helper columns empty in every line, or the real directory "
+            "itself - through the SAME option instance, and the import that follows is compared with the specification "
+            "of the real directory alone) plus batches of "
             "file names for the pattern matchers; non-trivial = at least two line files or a distractor; distinct by case hash")
     trusted = [
         "np.genfromtxt parses a written table to the values float(token) (NaN for unparsable/empty tokens) and names the "
@@ -227,6 +232,8 @@ class C04(Prop):
         "zero-padding style (one acquisition); every line has at least two samples",
         "TOFWERK stamps have the strict form YYYY.MM.DD-HHhMMmSSs and are valid dates",
         "an empty selection (no accepted file) is not compared (the property does not say what happens)",
+        "histories: the result of importing a directory does not depend on earlier imports made with the same option "
+        "object; what the earlier (primer) imports return or raise is not judged",
     ]
 
     # ------------------------------------------------------------------ generation
@@ -268,7 +275,20 @@ class C04(Prop):
                         c = gen_csvdir.generate(rng, tier)
                     c["auto"] = auto
                     c["pi"] = list(reversed(range(n)))  # last submitted task completes first
+                    c.pop("primers", None)
                     yield c
+        # histories on one option object: a primer with an element column of the real directory empty in every line,
+        # the real directory itself as primer, two primers
+        for vendor in gen_csvdir.VENDORS:
+            for want in ("primer-all-nan-element-of-real", "primer-same-dir", "two-primers", "primer-all-nan-helper"):
+                if want == "primer-all-nan-helper" and vendor == "generic":
+                    continue
+                rng = random.Random(f"C04-targeted-history-{vendor}-{want}")
+                while True:
+                    c = gen_csvdir.generate(rng, tier)
+                    if c["vendor"] == vendor and not c["auto"] and want in c["gen_features"] and "k1" not in c["gen_features"]:
+                        break
+                yield c
         # the DST defect repaired by 61edfa9: a stamp inside the spring gap and one shortly after it
         for tz, date, a, b in (("Europe/Berlin", "2021.03.28", "02h30m00s", "03h10m00s"),
                                ("America/New_York", "2021.03.14", "02h45m10s", "03h05m00s"),
@@ -313,6 +333,24 @@ class C04(Prop):
 
         option = None if case["auto"] else {"nu": pcsv.NuOption, "ldr": pcsv.ThermoLDROption, "tofwerk": pcsv.TofwerkOption,
                                             "generic": pcsv.GenericOption}[vendor]()
+        # history: earlier imports through the SAME option object (auto-detection: earlier imports in the same process);
+        # what they return or raise is not judged, only the import of the real directory that follows them is
+        primers = case.get("primers", [])
+        for i, p in enumerate(primers):
+            if p.get("same"):
+                pd, plisting = d, [e["name"] for e in entries]
+                random.Random(p["shuffle"]).shuffle(plisting)
+            else:
+                pd = d.parent / f"primer{i}"
+                pd.mkdir()
+                gen_csvdir.write_dir(pd, {"vendor": vendor, "entries": p["entries"]})
+                plisting = [e["name"] for e in p["entries"]]
+            with substitutions(pd, plisting, p["pi"], case["tz"]), warnings.catch_warnings():
+                warnings.simplefilter("ignore")
+                try:
+                    pcsv.load(pd, option=option, full=True)
+                except Exception:
+                    pass
         with substitutions(d, [e["name"] for e in entries], case["pi"], case["tz"]), warnings.catch_warnings():
             warnings.simplefilter("ignore")
             try:
@@ -333,6 +371,10 @@ class C04(Prop):
             feats.add("listing!=acquisition")
         if und:
             feats.add("param-near-rounding-tie")
+        if primers:
+            feats.add("history-auto" if case["auto"] else "history-shared-option")
+        else:
+            feats = {f for f in feats if not f.startswith(("primer-", "two-primers"))}
         empty = not lines
         nontrivial = n >= 2 or any(e["role"] != "line" for e in entries)
         return outcome(impl, model, spec, undetermined=empty, hyp=rep["hyp"], features=feats if nontrivial else [])
@@ -389,6 +431,19 @@ class C04(Prop):
             return
         ents = case["entries"]
         nlines = sum(e["role"] == "line" for e in ents)
+        prs = case.get("primers", [])
+        if prs:
+            yield {k: v for k, v in case.items() if k != "primers"}
+            for i, p in enumerate(prs):
+                if len(prs) > 1:
+                    yield {**case, "primers": prs[:i] + prs[i + 1:]}
+                if not p.get("same"):
+                    pl = [e for e in p["entries"] if e["role"] == "line"]
+                    for j, e in enumerate(p["entries"]):
+                        if e["role"] != "line" or len(pl) > 1:
+                            q = {"entries": p["entries"][:j] + p["entries"][j + 1:],
+                                 "pi": p["pi"] if e["role"] != "line" else [x for x in p["pi"] if x < len(pl) - 1]}
+                            yield {**case, "primers": prs[:i] + [q] + prs[i + 1:]}
         for i, e in enumerate(ents):
             if e["role"] != "line":
                 yield {**case, "entries": ents[:i] + ents[i + 1:]}
